@@ -627,6 +627,8 @@ class Interp:
                 return self.instantiate(fv.name, fv.mro, args, kwargs)
             if callable(fv) and not isinstance(fv, type):
                 return fv(*args, **kwargs)
+            if fv in (list, tuple, set, frozenset, dict, int, float, str, bool, bytes):
+                return _guard(fv, *args, **kwargs)  # a builtin type obtained as a value, e.g. type(x)(...)
         if isinstance(e.func, ast.Name) and isinstance(env.get(e.func.id), ClassRef):
             fv = env[e.func.id]
             return self.instantiate(fv.name, fv.mro, args, kwargs)
